@@ -123,6 +123,21 @@ def generate(tier, seed):
             ps = ['g', '%s!(%s)' % (mode, EQ_OPERANDS[k])]
             ks = ['i32', k]
         cases.append(dict(kinds=ks, alts=[ps], guard=guards[i % len(guards)], form='disj'))
+    # (4c) eq!/ne! operands in different alternatives (same operand type, different values), with and without a shared position
+    eq2 = {'i32': ('&7', '&9'), 'char': ("&'q'", "&'r'"), 'opt': ('&Some(1)', '&Some(2)'), 'tuple': ('&(1, true)', '&(2, false)')}
+    combos = [(3, 2, 0), (3, 0, 2), (3, 1, 1), (2, 0, 1), (2, 1, 0), (3, 1, 2), (3, 2, 1), (2, 0, 0)]
+    n4c = 8 if tier == 'quick' else 32
+    eq2k = list(eq2)
+    for i in range(n4c):
+        arity, p0, p1 = combos[i % len(combos)]
+        k = eq2k[(i // len(combos) + i) % len(eq2k)]
+        m0 = 'eq' if i % 2 == 0 else 'ne'
+        m1 = 'eq' if (i // 2) % 2 == 0 else 'ne'
+        a0 = ['_'] * arity
+        a1 = ['_'] * arity
+        a0[p0] = '%s!(%s)' % (m0, eq2[k][0])
+        a1[p1] = '%s!(%s)' % (m1, eq2[k][1])
+        cases.append(dict(kinds=[k] * arity, alts=[a0, a1], guard=None, form='disj'))
     # (5) empty matcher
     cases.append(dict(kinds=[], alts=[[]], guard=None, form='empty'))
 
@@ -172,7 +187,7 @@ def generate(tier, seed):
             else:
                 scrut.append('a%d' % i)
         arms = []
-        for a in c['alts']:
+        for ai, a in enumerate(c['alts']):
             pats = []
             guards = []
             if c['guard']:
@@ -180,9 +195,9 @@ def generate(tier, seed):
             for i, p in enumerate(a):
                 if p.startswith('eq!(') or p.startswith('ne!('):
                     operand = p[4:-1]
-                    lets.append('let l%d = %s;' % (i, operand))
+                    lets.append('let l%d_%d = %s;' % (ai, i, operand))
                     pats.append('m%d' % i)
-                    guards.append('(m%d %s l%d)' % (i, '==' if p.startswith('eq!') else '!=', i))
+                    guards.append('(m%d %s l%d_%d)' % (i, '==' if p.startswith('eq!') else '!=', ai, i))
                 else:
                     pats.append(p)
             pat = pats[0] if n == 1 else '(%s)' % ', '.join(pats)
